@@ -29,6 +29,8 @@ BLANK_CELLS = ['F6', 'F7']
 NUM_AREAS = ['A1:E1', 'A3:A8', 'B3:B8', 'A3:B8', 'A1:F1', 'B3:B5', 'A6:B8', 'F1:F4', 'A1:B1', 'F2:F7', 'D1:F1']
 MIXED_AREAS = ['A1:E2', 'A2:E3', 'C3:D8', 'A3:C8', 'D1:E4']
 FUNCS_BY_PROPERTY = {
+    'C01': ['OP', 'AMP', 'CMP'],          # pseudo-names: arithmetic operators, &, comparisons (over the results of functions)
+    'C10': ['CMP'],
     'C11': ['SUM', 'AVERAGE', 'MIN', 'MAX', 'COUNT', 'COUNTBLANK', 'AND', 'OR'],
     'C12': ['SUMIF', 'SUMIFS', 'COUNTIFS', 'AVERAGEIFS'],
     'C13': ['IF', 'IFS', 'IFERROR'],
@@ -80,11 +82,11 @@ class Gen:
                               (1, '', lambda: self.ref(r.choice(SMALL_CELLS)))])
         return self.pick([
             (3, '', lambda: self.num(0)),
-            (3, 'op', lambda: f'{self.num(d - 1)}{r.choice(["+", "-", "*"])}{self.num(d - 1)}'),
-            (1, 'op', lambda: f'({self.num(d - 1)}+{self.num(d - 1)})*{self.num(0)}'),
-            (1, 'op', lambda: f'{self.num(d - 1)}/{r.choice(["2", "4", "F1", "0.5", "D1"])}'),
-            (1, 'op', lambda: f'-{self.num(0)}'),
-            (1, 'op', lambda: f'{self.num(0)}%'),
+            (3, 'OP', lambda: f'{self.num(d - 1)}{r.choice(["+", "-", "*"])}{self.num(d - 1)}'),
+            (1, 'OP', lambda: f'({self.num(d - 1)}+{self.num(d - 1)})*{self.num(0)}'),
+            (1, 'OP', lambda: f'{self.num(d - 1)}/{r.choice(["2", "4", "F1", "0.5", "D1"])}'),
+            (1, 'OP', lambda: f'-{self.num(0)}'),
+            (1, 'OP', lambda: f'{self.num(0)}%'),
             (3, 'SUM', lambda: f'SUM({self.agg_args(d)})'), (2, 'MAX', lambda: f'MAX({self.agg_args(d)})'), (2, 'MIN', lambda: f'MIN({self.agg_args(d)})'),
             (2, 'AVERAGE', lambda: f'AVERAGE({self.agg_args(d)})'), (2, 'COUNT', lambda: f'COUNT({self.agg_args(d, mixed=True)})'),
             (1, 'COUNTBLANK', lambda: f'COUNTBLANK({r.choice(NUM_AREAS + MIXED_AREAS)})'),
@@ -168,8 +170,8 @@ class Gen:
             return self.pick([(4, '', lambda: self.ref(r.choice(TEXT_CELLS))), (2, '', lambda: r.choice(['"abc"', '"x"', '"hello world"', '"Ab"', '"b-c"']))])
         return self.pick([
             (3, '', lambda: self.text(0)),
-            (3, 'amp', lambda: f'{self.text(d - 1)}&{self.text(d - 1)}'),
-            (1, 'amp', lambda: f'{self.text(d - 1)}&{self.intnum(d - 1)}'),
+            (3, 'AMP', lambda: f'{self.text(d - 1)}&{self.text(d - 1)}'),
+            (1, 'AMP', lambda: f'{self.text(d - 1)}&{self.intnum(d - 1)}'),
             (3, 'LEFT', lambda: f'LEFT({self.text(d - 1)}{self.sep()}{self.count(d)})'),
             (3, 'RIGHT', lambda: f'RIGHT({self.text(d - 1)}{self.sep()}{self.count(d)})'),
             (3, 'MID', lambda: f'MID({self.text(d - 1)}{self.sep()}{self.pos(d, 4)}{self.sep()}{self.count(d)})'),
@@ -203,15 +205,15 @@ class Gen:
         r = self.rng
         cmpn = lambda: f'{self.num(max(d - 1, 0))}{r.choice([">", "<", ">=", "<=", "=", "<>"])}{self.num(0)}'          # noqa: E731
         if d <= 0:
-            return self.pick([(4, 'cmp', cmpn), (1, '', lambda: self.ref(r.choice(BOOL_CELLS))), (1, '', lambda: r.choice(['TRUE', 'FALSE']))])
+            return self.pick([(4, 'CMP', cmpn), (1, '', lambda: self.ref(r.choice(BOOL_CELLS))), (1, '', lambda: r.choice(['TRUE', 'FALSE']))])
         return self.pick([
-            (4, 'cmp', cmpn),
-            (1, 'cmp', lambda: f'{self.text(d - 1)}{r.choice(["=", "<>"])}{self.text(0)}'),
+            (4, 'CMP', cmpn),
+            (1, 'CMP', lambda: f'{self.text(d - 1)}{r.choice(["=", "<>"])}{self.text(0)}'),
             (2, 'AND', lambda: f'AND({self.boolean(d - 1)}{self.sep()}{self.boolean(d - 1)})'),
             (2, 'OR', lambda: f'OR({self.boolean(d - 1)}{self.sep()}{self.boolean(d - 1)})'),
             (1, 'IF', lambda: f'IF({self.boolean(d - 1)},{self.boolean(0)},{self.boolean(0)})'),
             (1, '', lambda: self.ref(r.choice(BOOL_CELLS))),
-            (1, 'cmp', lambda: f'{self.date(d - 1)}{r.choice([">", "<", "="])}{self.date(0)}'),
+            (1, 'CMP', lambda: f'{self.date(d - 1)}{r.choice([">", "<", "="])}{self.date(0)}'),
         ])
 
     # ---- dates ---------------------------------------------------------------------------------------
@@ -239,3 +241,26 @@ VALUATIONS = [
     [('A1', -2), ('D1', 7.75), ('E1', 5), ('F2', 2), ('F4', 1), ('B2', 'b'), ('C2', 'ccc c'), ('D4', True), ('E5', dt.datetime(2023, 11, 30)), ('A4', 2)],
     [('A1', 3), ('B1', 3), ('F6', 4), ('A2', 'Bc'), ('E2', '7'), ('F1', 4), ('E4', dt.datetime(2025, 1, 1)), ('A6', 8), ('B3', -10)],
 ]
+
+
+def random_valuation(rng):
+    """type-preserving overrides of the data block (numbers stay numbers, the key column stays ascending, texts stay texts)"""
+    ov = []
+    for a in rng.sample(NUM_CELLS[:6], 3):
+        ov.append((a, rng.choice([0, 1, -1, 2.5, 7, 12, 0.1, 99.5, -40, 3, 1e6, 0.004])))
+    for a in rng.sample(SMALL_CELLS, 2):
+        ov.append((a, rng.randrange(0, 5)))
+    for a in rng.sample(TEXT_CELLS, 2):
+        ov.append((a, rng.choice(['', 'a', 'Zz top', 'abcabcabc', 'x', 'b-c-d', 'Alpha', 'c c', '12ab'])))
+    if rng.random() < 0.5:
+        ov.append((rng.choice(BOOL_CELLS), rng.random() < 0.5))
+    if rng.random() < 0.6:
+        ov.append((rng.choice(DATE_CELLS), dt.datetime(2024, 1, 1) + dt.timedelta(days=rng.randrange(-400, 400))))
+    if rng.random() < 0.5:
+        keys = sorted(rng.sample(range(0, 40), 6))
+        if rng.random() < 0.5:
+            keys[2] = keys[1]
+        ov += [(f'A{3 + i}', k) for i, k in enumerate(keys)]
+    if rng.random() < 0.3:
+        ov.append((rng.choice(BLANK_CELLS), rng.choice([5, 'filled', 0])))
+    return ov
